@@ -18,6 +18,7 @@ RULE = (
     "exception; EVERY byte of EVERY marker after the header x {^0x01,^0x80,^0xFF}: an error must surface when that block is "
     "reached, nothing after it may be yielded; every proper prefix of schemaless encodings of the same records must raise. "
     "distinct_nontrivial = distinct faulted byte strings read."
+    ' Each schema x codec also as the three-block file with legal zero-record blocks spliced in after the first block and at the end.'
 )
 ASSUMPTIONS = [
     "block boundaries come from mc/ref/container.parse of the intact file",
